@@ -13,6 +13,17 @@ applies one action of the finite alphabet to every implementation through
   simulator (mc/refmodel/densefock.py, run at two truncations that must agree to 1e-10);
 * tracker self-test on every transition: PureFock(cutoff) == PureFock(cutoff+6) on sectors < E, otherwise
   HARNESS-SELFTEST (exit 2), never a violation;
+* ONE-STEP REFERENCE ORACLES on every transition at every depth (mc/c01_onestep.py + mc/refmodel/onestep.py): the
+  implementation's OWN parent state is the input and the child state is predicted exactly, independently of the other
+  simulators and of the exactness tracker: PureFock / Fock simulators for the action kinds whose truncated dynamics is
+  "documented operator restricted to the truncated space" (passive gates on any ordered mode tuple via permanents, Kerr /
+  CrossKerr, single-mode Displacement-like gates and Squeezing via exact matrix elements, Attenuator as the Kraus map),
+  all components at 1e-9; GaussianSimulator for every gate: (mean, covariance) of the child == symplectic congruence of
+  the parent's by the documented matrix embedded on the ordered mode tuple (displacement shift; Attenuator as the
+  documented X, Y channel with hbar), 1e-9;
+* directed sub-explorations (`_directed`): explicit prefix histories / superposition roots followed by the full alphabet,
+  so that the quick tier contains Fock Attenuators acting on coherences |n><m| (n != m, both >= 1) and Gaussian active gates
+  with a complex active block acting on a subset of entangled modes;
 * an exception that is not a PiquassoException is a crash (violation); InvalidSimulation /
   NotImplementedCalculation are unsupported cells; other PiquassoExceptions are counted as refused cells.
 
@@ -95,7 +106,89 @@ def _table_name(cls, pkey, local):
 
 def _cfg_key(cfg):
     d, c, h, occ, depth, level = cfg
-    return "%d|%d|%r|%s|%d|%s" % (d, c, h, "".join(map(str, occ)), depth, level)
+    return "%d|%d|%r|%s|%d|%s" % (d, c, h, _root_label(occ), depth, level)
+
+
+# superposition roots (fixed closed-form amplitudes, independent of VERIF_SEED; components with total >= cutoff are dropped
+# and the rest is normalised); a root spec is a tuple of ints (number state) or ("sup", name)
+SUPERPOSITIONS = {
+    "s1": {(0,): 1.0, (1,): 0.8 - 0.3j, (2,): -0.5 + 0.6j, (3,): 0.4j},
+    "s2": {(0, 0): 1.0, (1, 0): 0.7j, (0, 1): -0.6 + 0.2j, (2, 0): 0.5 - 0.4j, (1, 1): 0.3 + 0.5j, (0, 2): -0.45j, (2, 1): 0.35},
+}
+
+
+def _is_number_root(occ):
+    return not (len(occ) and isinstance(occ[0], str))
+
+
+def _root_label(occ):
+    return "".join(map(str, occ)) if _is_number_root(occ) else "sup:%s" % occ[1]
+
+
+def _root_json(occ):
+    return [int(x) for x in occ] if _is_number_root(occ) else {"superposition": occ[1]}
+
+
+def _root_from_json(r):
+    return ("sup", str(r["superposition"])) if isinstance(r, dict) else tuple(int(x) for x in r)
+
+
+def _sup_components(name, cutoff):
+    import numpy as np
+
+    comps = {k: complex(v) for k, v in SUPERPOSITIONS[name].items() if sum(k) < cutoff}
+    nrm = float(np.sqrt(sum(abs(v) ** 2 for v in comps.values())))
+    return {k: v / nrm for k, v in sorted(comps.items())}
+
+
+def _directed(tier):
+    """directed sub-explorations: (d, cutoff, hbar, root spec, prefix [(cls, modes), ...], depth below the prefix).
+    The prefix actions are the alphabet's own templates of that class and mode tuple (generic parameters); the prefix
+    transitions are executed and checked as well, then the FULL alphabet is explored `depth` levels below."""
+    sup1, sup2 = ("sup", "s1"), ("sup", "s2")
+    Q = [
+        # (A) Fock Attenuator on coherences |n><m| with n != m, both >= 1 in the attenuated mode
+        (2, 3, 2.0, (2, 0), [("Beamsplitter", (0, 1))], 1),
+        (2, 3, 2.0, (1, 1), [("Interferometer", (1, 0))], 1),
+        (2, 4, 0.63, (2, 1), [("Beamsplitter", (1, 0))], 1),
+        (2, 4, 0.63, (0, 0), [("Displacement", (0,)), ("Beamsplitter", (0, 1))], 1),
+        (1, 4, 0.63, sup1, [], 2),
+        (2, 3, 2.0, sup2, [], 1),
+        (2, 4, 0.63, sup2, [("Attenuator", (1,))], 1),
+        (3, 3, 2.0, (1, 1, 0), [("Interferometer", (2, 0, 1)), ("Attenuator", (1,))], 1),  # mixed 3-mode state: only FockSimulator continues
+        # (B) Gaussian: a second / third active gate with a complex active block on a subset of entangled modes
+        (3, 2, 0.63, (0, 0, 0), [("Squeezing2", (0, 1)), ("Beamsplitter", (1, 2))], 1),
+        (3, 2, 2.0, (0, 0, 0), [("GaussianTransform", ()), ("Squeezing", (1,))], 1),
+        (3, 1, 1.0, (0, 0, 0), [("Squeezing2", (2, 0)), ("Displacement", (2,)), ("QuadraticPhase", (0,))], 1),
+    ]
+    if tier == "quick":
+        return Q
+    T = list(Q)
+    for h in (2.0, 1.0, 0.63):
+        T += [(1, 5, h, sup1, [], 2), (2, 4, h, sup2, [], 1)]
+    T += [
+        (2, 3, 0.63, sup2, [], 2),
+        (2, 4, 1.0, (2, 1), [("Beamsplitter", (0, 1)), ("Attenuator", (0,))], 1),
+        (2, 5, 2.0, (2, 2), [("MachZehnder", (1, 0))], 1),
+        (3, 4, 1.0, (2, 0, 1), [("Interferometer", (2, 0, 1))], 1),
+        (3, 3, 1.0, (0, 0, 0), [("Squeezing2", (0, 2)), ("Beamsplitter", (2, 1))], 2),
+        (4, 2, 0.63, (0, 0, 0, 0), [("GaussianTransform", ()), ("Squeezing2", (3, 1))], 1),
+        (4, 2, 2.0, (0, 0, 0, 0), [("Squeezing2", (0, 1)), ("Squeezing2", (2, 3)), ("Interferometer", (1, 2, 3))], 1),
+    ]
+    return T
+
+
+def _directed_label(item):
+    d, c, h, occ, prefix, depth = item
+    return "d=%d cutoff=%d hbar=%r root=%s prefix=%s depth_below=%d" % (
+        d, c, h, _root_label(occ), "+".join("%s%s" % (cls, "".join(map(str, m)) or "all") for cls, m in prefix) or "-", depth)
+
+
+def _pick(actions, cls, modes):
+    for a in actions:
+        if a[0] == cls and tuple(a[1]) == tuple(modes):
+            return a
+    raise KeyError("directed prefix action %s%r is not in the alphabet" % (cls, tuple(modes)))
 
 
 # ---------------------------------------------------------------------------------------
@@ -120,15 +213,26 @@ def run(ctx, builddir):
             cfgs = [c for c in cfgs if sum(c[3]) == 0]
         if "p1" in toks:
             only = "p1"
+        if "dironly" in toks:
+            cfgs = []
         ctx.exhaustive = False
+    directed = [] if (only and ("nodir" in only.split(",") or only == "p1")) else _directed(ctx.tier)
     ctx.rule = (
         "enumeration: for every configuration box (d, cutoff, hbar, depth) every root (vacuum and every number state with "
         "<= 2 photons below the cutoff) and every instruction sequence up to the box depth over the full alphabet "
         "(every gate kind on every ORDERED mode tuple, generic parameters; mc.lockstep.alphabet); a case = one lock-step "
         "state (tuple of live simulator states + exactness record); distinct = distinct canonical hash (amplitudes / moments "
         "rounded to 1e-9, merged over all workers); every such state is non-trivial (it is the target of an executed and "
-        "compared transition)"
+        "compared transition); plus the directed sub-explorations listed in coverage.directed (explicit prefix history or "
+        "superposition root, then the full alphabet)"
     )
+    ctx.assume("one-step reference oracles (every transition, every depth, tolerance 1e-9 abs+rel, input = the implementation's own parent state): "
+               "Fock simulators for passive gates, Kerr, CrossKerr, Displacement / PositionDisplacement / MomentumDisplacement, Squeezing and Attenuator "
+               "(thermal excitation 0); the Euler-decomposed gates QuadraticPhase, Squeezing2, ControlledX/Z, GaussianTransform have NO one-step Fock oracle "
+               "(the library truncates between the three factors, so the truncated step is not the restricted documented operator); GaussianSimulator for "
+               "every gate of the alphabet, on the internal ladder moments (_m, _C, _G) converted with the reference's own formulae")
+    ctx.assume("the exact single-mode Displacement / Squeezing matrix elements of the one-step oracle (dense expm at cutoff+30 / cutoff+40, agreeing to 1e-12) "
+               "were verified to equal piquasso's recurrence-generated matrices to 1e-12 for cutoff 1..8 on the unchanged tree before being relied on")
     ctx.assume("Gaussian<->Fock and simulator<->dense-reference (active gates) tolerance 1e-8 abs+rel (Euler/Takagi conditioning, DESIGN 2.5); all other pairs 1e-9")
     ctx.assume("Gaussian<->Fock compared only on total-photon-number sectors < E of the exactness tracker (mc.lockstep.Exactness); the tracker is "
                "self-tested on every transition against PureFockSimulator at cutoff+%d" % SHADOW_EXTRA)
@@ -192,6 +296,10 @@ def run(ctx, builddir):
             chunk = max(1, int(target / per_first))
             for i in range(0, len(reps), chunk):
                 items2.append((per_first * len(reps[i:i + chunk]), ("p2", cfg, reps[i:i + chunk])))
+        for it in directed:
+            d, c, h, occ, prefix, depth = it
+            nact = len(L.alphabet("bosonic", d, "quick", ctx.seed))
+            items2.append((_ms_per_transition(d, c) * sum(nact ** k for k in range(1, depth + 1)), ("p3", it)))
         items2.sort(key=lambda t: -t[0])
         core.pmap(ctx, "mc.checks.c01", "work", [it for _, it in items2], builddir)
     for k in [k for k in ctx.extra if k.startswith("p1|")]:
@@ -203,6 +311,11 @@ def run(ctx, builddir):
     vac = [k for k, v in c.items() if k.startswith("max_successors/") and v < 2]
     if vac and not only:
         raise core.HarnessError("HARNESS-VACUOUS alphabet: %s never produced two distinct successors" % vac)
+    if not only:
+        for k in ("onestep_sensitive/FockSimulator/attenuator_on_unequal_coherence", "onestep_sensitive/GaussianSimulator/complex_active_block_on_entangled_subset",
+                  "onestep_compared/PureFockSimulator", "onestep_compared/FockSimulator", "onestep_compared/GaussianSimulator"):
+            if c.get(k, 0) < 10:
+                raise core.HarnessError("HARNESS-VACUOUS one-step oracle: counter %s = %d" % (k, c.get(k, 0)))
     boxes = {}
     for d, cc, h, occ, depth, level in cfgs:
         boxes.setdefault("d=%d cutoff=%d hbar=%r depth=%d alphabet=%s" % (d, cc, h, depth, level), []).append("".join(map(str, occ)))
@@ -217,9 +330,11 @@ def run(ctx, builddir):
         "implementation_executions": {k.split("/", 1)[1]: v for k, v in c.items() if k.startswith("executions/")},
         "alphabet_sizes": {"d=%d/%s" % (d, lv): len(L.alphabet("bosonic", d, lv, ctx.seed)) for d, lv in sorted({(x[0], x[5]) for x in cfgs})},
         "boxes": {k: sorted(v) for k, v in sorted(boxes.items())},
+        "directed": [_directed_label(it) for it in directed],
+        "one_step_reference": {k[len("onestep_"):]: v for k, v in sorted(c.items()) if k.startswith("onestep_")},
         "explanation": "state = distinct canonical lock-step state (live states of all participating simulators + exactness record), "
         "merged over workers by hash; transition = one alphabet action applied to every live implementation of a state through "
-        "execute_instructions and compared (pairwise, vs dense reference at depth 1, tracker self-test); traces_validated = transitions "
+        "execute_instructions and compared (pairwise, one-step reference oracles from the implementation's own parent state, vs dense reference at depth 1, tracker self-test); traces_validated = transitions "
         "in which at least one cross-implementation or reference comparison was actually evaluated; paths = instruction histories "
         "executed (one per transition); max_successors/<d>/<gate> = distinct canonical successors per gate class (vacuity guard)",
     }
@@ -232,12 +347,17 @@ def _aggregate_signatures(ctx):
     groups = {}
     for v in ctx.violations:
         s = v.signature
-        if s.get("sub") not in ("disagree", "vs_reference"):
+        if s.get("sub") == "one_step_reference":
+            k = (s["sub"], s["simulator"], s["gate_kind"], s.get("component"), s.get("block"))
+        elif s.get("sub") in ("disagree", "vs_reference"):
+            k = (s["sub"], s.get("odd_one_out"), s.get("pair"), s.get("simulator"), s["observable"], s["gate_kind"])
+        else:
             continue
-        k = (s["sub"], s.get("odd_one_out"), s.get("pair"), s.get("simulator"), s["observable"], s["gate_kind"])
         groups.setdefault(k, []).append(v)
     for vs in groups.values():
         for field in ("gate", "mode_order", "cutoff_class"):
+            if field not in vs[0].signature:
+                continue
             vals = {v.signature[field] for v in vs}
             if len(vals) > 1:
                 for v in vs:
@@ -265,6 +385,8 @@ def work(ctx, item):
             }
         for cfg in item[1]:
             _explore_cfg(ctx, tuple(cfg), None)
+    elif item[0] == "p3":
+        _explore_directed(ctx, item[1])
     else:
         _explore_cfg(ctx, tuple(item[1]), list(item[2]))
 
@@ -277,17 +399,35 @@ def _setup(cfg, seed):
     sims = {k: L.make_simulator(k, d, cutoff, hbar) for k in L.SIM_KINDS}
     sims["shadow"] = L.make_simulator("purefock", d, cutoff + SHADOW_EXTRA, hbar)
     states, failures = {}, {}
+    comps = None if _is_number_root(occ) else _sup_components(occ[1], cutoff)
     for name, sim in sims.items():
         kind = "purefock" if name == "shadow" else name
         try:
-            st = L.root_state(sim, kind, occ)
+            st = L.root_state(sim, kind, occ) if comps is None else _sup_root_state(sim, kind, comps)
         except Exception as e:
             failures[name] = L.Failure(e)
             continue
         if st is not None:
             states[name] = st
-    root = L.Node(states, (), L.Exactness.root(occ, cutoff), label="".join(map(str, occ)))
+    if comps is None:
+        exact = L.Exactness.root(occ, cutoff)
+    else:  # K_j = largest occupation of mode j over the components; every component is represented exactly
+        exact = L.Exactness([float(max(k[j] for k in comps)) for j in range(d)], cutoff)
+    root = L.Node(states, (), exact, label=_root_label(occ))
     return sims, root, failures
+
+
+def _sup_root_state(sim, kind, comps):
+    """superposition root through the public preparation path (PureFock: NumberState with coefficients; Fock: DensityMatrix
+    entries); the Gaussian and passive simulators cannot prepare it"""
+    import numpy as np
+    import piquasso as pq
+
+    if kind == "purefock":
+        return sim.execute_instructions([pq.NumberState(k, coefficient=v) for k, v in comps.items()]).state
+    if kind == "fock":
+        return sim.execute_instructions([pq.DensityMatrix(ket=k, bra=b, coefficient=comps[k] * np.conj(comps[b])) for k in comps for b in comps]).state
+    return None
 
 
 def _participates_factory(d, cutoff):
@@ -322,7 +462,7 @@ class _Env:
         from mc import lockstep as L
 
         c = {
-            "d": self.d, "cutoff": self.cutoff, "hbar": self.hbar, "seed": self.ctx.seed, "root": list(self.occ),
+            "d": self.d, "cutoff": self.cutoff, "hbar": self.hbar, "seed": self.ctx.seed, "root": _root_json(self.occ),
             "history": [L.template_json(t) for t in history], "action": L.template_json(action),
         }
         if extra:
@@ -377,6 +517,62 @@ def _explore_cfg(ctx, cfg, first_actions):
     for cls, n in per_cls.items():
         k = "max_successors/d%d/%s" % (d, cls)
         ctx.counters[k] = max(ctx.counters.get(k, 0), n)
+    for k, v in env.maxdev.items():
+        kk = "max_dev/" + k
+        ctx.counters[kk] = max(ctx.counters.get(kk, 0.0), v)
+
+
+def _explore_directed(ctx, item):
+    """one directed sub-exploration: root -> prefix (every prefix transition executed and checked) -> full alphabet"""
+    from mc import lockstep as L
+
+    d, cutoff, hbar, occ, prefix, depth = item
+    occ = tuple(occ)
+    cfg = (d, cutoff, hbar, occ, len(prefix) + depth, "quick")
+    actions = L.alphabet("bosonic", d, "quick", ctx.seed)
+    sims, root, root_failures = _setup(cfg, ctx.seed)
+    env = _Env(ctx, cfg, sims)
+    for name, f in root_failures.items():
+        if name != "shadow":
+            _report_failure(env, (), ("Vacuum", (), {}), name, f, stage="root-preparation")
+    if not root.states:
+        return
+    ctx.note_distinct(L.canon_node(root.states, root.exact.key()))
+    node = root
+    for cls, modes in prefix:
+        t = _pick(actions, cls, tuple(modes))
+        children, reexecuted = L.step_node(sims, node, t, ctx.seed, env.participates)
+        live = {n: s for n, s in children.items() if not isinstance(s, L.Failure)}
+        exact_child = node.exact.step(t)
+        key = L.canon_node(live, exact_child.key()) if live else None
+        info = {
+            "depth": len(node.history) + 1, "action_index": -1, "exact_parent": node.exact, "exact_child": exact_child,
+            "key": key, "new": False, "reexecuted": reexecuted, "label": node.label, "root_states": node.root_states, "prefix": True,
+        }
+        ok = _check_transition(env, node.history, node.states, t, children, info)
+        ctx.count("transitions")
+        ctx.count("states")
+        for n in live:
+            ctx.count("executions/" + n)
+        if key is not None:
+            ctx.note_distinct(key)
+        if not ok or not live:
+            return
+        node = L.Node(live, node.history + (t,), exact_child, node.root_states, node.label)
+
+    def on_transition(history, parents, action, children, info):
+        ok = _check_transition(env, history, parents, action, children, info)
+        if info["new"] and info["key"] is not None:
+            ctx.note_distinct(info["key"])
+        return ok
+
+    stats = L.explore(sims, [node], actions, depth, on_transition, seed=ctx.seed, participates=env.participates)
+    ctx.count("transitions", stats["transitions"])
+    ctx.count("directed_transitions", stats["transitions"] + len(prefix))
+    ctx.count("states", stats["states"] - 1 + (0 if prefix else 1))
+    ctx.counters["max_depth"] = max(ctx.counters.get("max_depth", 0), stats["max_depth"])
+    for name, n in stats["executions"].items():
+        ctx.count("executions/" + name, n)
     for k, v in env.maxdev.items():
         kk = "max_dev/" + k
         ctx.counters[kk] = max(ctx.counters.get(kk, 0.0), v)
@@ -545,6 +741,40 @@ def _check_transition(env, history, parents, action, children, info):
                 env.d, env.cutoff, env.hbar, env.occ, ex, where)
             _emit(env, sig, history, action, msg, {"kind": "pair", "pairs": [[f[0], f[1], f[2], f[3]] for f in grp]})
 
+    # one-step reference oracles: the implementation's own parent state -> predicted child state (every depth)
+    from mc import c01_onestep as OS1
+
+    for n in ("purefock", "fock", "gaussian"):
+        if n not in live or n not in parents:
+            continue
+        simcls = L._SIM_CLASS[n]
+        if n == "gaussian":
+            r = OS1.check_gauss(parents[n], live[n], action, env.d, env.hbar, ctx.seed)
+        else:
+            r = OS1.check_fock(parents[n], live[n], action, env.d, env.cutoff, ctx.seed)
+        if r is None:
+            ctx.count("onestep_no_oracle/%s" % simcls)
+            continue
+        compared = True
+        ctx.count("onestep_compared/%s" % simcls)
+        ctx.count("onestep_compared_by_kind/%s/%s" % (simcls, OS1.gauss_kind(action[0]) if n == "gaussian" else L.gate_kind(action[0])))
+        if r["sensitive"]:
+            ctx.count("onestep_sensitive/%s/%s" % (simcls, "complex_active_block_on_entangled_subset" if n == "gaussian" else "attenuator_on_unequal_coherence"))
+        _note_dev(env, "%s~onestep" % n, r["dev"] if np.isfinite(r["dev"]) else 1e300)
+        if not r["ok"]:
+            ok = False
+            sig = {"check": "C01", "sub": "one_step_reference", "simulator": simcls, "gate": action[0], "mode_order": L.mode_order_class(action[1])}
+            if n == "gaussian":
+                sig.update(gate_kind=OS1.gauss_kind(action[0]), block=r["block"])
+                what = "block %s of (mean, covariance)" % r["block"]
+            else:
+                sig.update(gate_kind=L.gate_kind(action[0]), component=r["component"])
+                what = "%s (%s)" % (r["observable"], r["component"])
+            msg = "%s: the child state differs from the one-step reference prediction computed from its OWN parent state on %s by %.3e (tolerance %.0e) for %s%r %s after %s; d=%d cutoff=%d hbar=%r root=%s; entry %s" % (
+                simcls, what, r["dev"], OS1.TOL, action[0], tuple(action[1]), json.dumps(L.template_json(action)[2]),
+                [t[0] + str(tuple(t[1])) for t in history], env.d, env.cutoff, env.hbar, _root_label(env.occ), r["where"])
+            _emit(env, sig, history, action, msg, {"kind": "one_step", "simulator": n, "deviation": r["dev"]})
+
     # tracker self-test: PureFock(cutoff) vs PureFock(cutoff + 6) on sectors < E
     if "shadow" in live and "purefock" in live and E > 0:
         a = np.asarray(live["purefock"].density_matrix)
@@ -560,7 +790,7 @@ def _check_transition(env, history, parents, action, children, info):
                                                                         L.template_json(action), ex, SHADOW_EXTRA, dev))
 
     # dense reference at depth 1
-    if info["depth"] == 1:
+    if info["depth"] == 1 and _is_number_root(env.occ) and not info.get("prefix"):
         ref = _reference(env, action)
         if ref is None:
             ctx.count("ref_unconverged")
@@ -604,7 +834,7 @@ def _check_transition(env, history, parents, action, children, info):
         ctx.count("transitions_compared")
     if info["new"] and len(ctx.samples) < ctx.max_samples and len(history) >= 1 and len(live) >= 3:
         ctx.sample({
-            "d": env.d, "cutoff": env.cutoff, "hbar": env.hbar, "root": list(env.occ),
+            "d": env.d, "cutoff": env.cutoff, "hbar": env.hbar, "root": _root_json(env.occ),
             "history": [L.template_json(t) for t in history] + [L.template_json(action)],
             "live_implementations": sorted(live), "exactness": repr(ex),
             "max_abs_deviation_so_far": {k: v for k, v in sorted(env.maxdev.items())},
@@ -745,7 +975,7 @@ def _reference(env, action):
 def _replay_case(ctx, case):
     from mc import lockstep as L
 
-    cfg = (case["d"], case["cutoff"], case["hbar"], tuple(case["root"]), len(case["history"]) + 1, "quick")
+    cfg = (case["d"], case["cutoff"], case["hbar"], _root_from_json(case["root"]), len(case["history"]) + 1, "quick")
     seed = case.get("seed", ctx.seed)
     ctx.seed = seed
     sims, root, root_failures = _setup(cfg, seed)
